@@ -111,6 +111,15 @@ def _create_files(  # noqa: C901, PLR0912, PLR0913
         if links is None and isinstance(storage_obj, ObjectStorage):
             links = storage_obj.odb.cache_types
 
+        # the index does not have to hold an entry for every intermediate
+        # directory and, unlike copying, linking does not create parents
+        for parent in {fs.parent(dest_path) for dest_path in dest_paths}:
+            try:
+                fs.makedirs(parent, exist_ok=True)
+            except OSError:
+                # e.g. a file is in the way: the transfer below reports it
+                pass
+
         transfer(
             src_fs,
             list(src_paths),
@@ -257,6 +266,12 @@ def _compare(  # noqa: C901, PLR0912
             _add_create(change.new)
         elif change.typ == DELETE:
             if not delete:
+                continue
+
+            old_meta = change.old.meta
+            if old_meta and old_meta.isdir and new.has_node(change.key):
+                # the new index has no entry of its own for this directory,
+                # but it has entries below it: the directory has to stay
                 continue
 
             _add_delete(change.old)
